@@ -51,6 +51,15 @@ theorem extracted_pubdec_loop_eq_model (decs : List (α → α)) (pub : α) :
     runDecLoop Gen.pubDecLoop decs pub = some (decoratePublisher decs pub) := by
   simp [runDecLoop, runLoop, Gen.pubDecLoop, decoratePublisher, loopDown_eq_idxDown]
 
+/-- **tie**: `decorateHandlerPublisher` as a whole, on a handler's publisher field that may be nil: the source begins
+    with the nil guard (`Gen.pubDecNilGuard`), so a handler without a publisher is NOT decorated – whatever the decorators
+    would make of a nil publisher (`onNil`) – and one with a publisher gets `Wm.Chain.decoratePublisher` -/
+theorem extracted_pubdec_nil_guard_eq_model (decs : List (α → α)) (onNil : Option α) (pub : Option α) :
+    runPubDecorate Gen.pubDecNilGuard Gen.pubDecLoop decs onNil pub = some (decorateHandlerPublisher decs pub) := by
+  cases pub with
+  | none => simp [runPubDecorate, Gen.pubDecNilGuard, decorateHandlerPublisher]
+  | some p => simp [runPubDecorate, decorateHandlerPublisher, extracted_pubdec_loop_eq_model]
+
 /-- **tie**: `decorateHandlerSubscriber` = context decorator first, then the loop = `Wm.Chain.decorateSubscriber` -/
 theorem extracted_subdec_loop_eq_model (ctxD : α → α) (decs : List (α → α)) (sub : α) :
     Gen.subCtxFirst = true ∧
